@@ -5,7 +5,7 @@ usage: evalmut.py <Cxx> <a|b> [props...]   -> prints a JSON summary   (MUT_SUFFI
 The scratch worktree /tmp/mut is created if missing and moved to /repo's HEAD."""
 import json, os, subprocess, sys, shutil
 VERIF = os.path.dirname(os.path.dirname(os.path.abspath(__file__)))
-WT = '/tmp/mut'
+WT = os.environ.get('MUT_WT', '/tmp/mut')
 
 
 def sh(cmd, env=None, timeout=1200):
